@@ -184,3 +184,18 @@ package chainexchange
 //@   maypanic
 //@   at cacheAsWantedChain 1
 //@     before[every_own_broadcast_is_cached_as_wanted] arg(0) == p && arg(1) == ctx
+
+//@ func (*PubSubChainExchange).newChainPortionCache
+//@   property C18
+//@   modifies auto
+//@   maypanic
+//@   at New 1
+//@     before[the_cache_has_the_requested_capacity] arg(0) == capacity
+//@   at return 0
+//@     before[that_cache_is_what_is_handed_out] arg(0) == res(New, 1, 0)
+
+//@ func (*chainPortion).IsPlaceholder
+//@   property C18 C13
+//@   inlined
+//@   modifies nothing
+//@   ensures[a_placeholder_is_the_one_shared_marker_object] result == (cp == chainPortionPlaceHolder)
